@@ -61,7 +61,7 @@ def parse(file_path):
     return chain
 
 
-def write_chain(chain: MHLChain, new_hash_list: MHLHashList):
+def write_chain(chain: MHLChain, new_hash_list: Optional[MHLHashList]):
     logger.debug(f'writing "{os.path.basename(chain.file_path)}"...')
 
     """creates a new chain file and writes the xml to disk
@@ -71,7 +71,9 @@ def write_chain(chain: MHLChain, new_hash_list: MHLHashList):
     if not os.path.isdir(directory_path):
         os.mkdir(directory_path)
 
-    file = open(chain.file_path, "wb")
+    # never truncate the existing chain file: write to a temporary name and replace the chain file at the end
+    temp_file_path = chain.file_path + ".tmp"
+    file = open(temp_file_path, "wb")
     file.write(b'<?xml version="1.0" encoding="UTF-8"?>\n<ascmhldirectory xmlns="urn:ASC:MHL:DIRECTORY:v2.0">\n')
     current_indent = "  "
 
@@ -79,12 +81,14 @@ def write_chain(chain: MHLChain, new_hash_list: MHLHashList):
         _write_xml_element_to_file(file, _hashlist_xml_element_from_chaingeneration(generation), "  ")
 
     # write new hashlist
-    _write_xml_element_to_file(file, _hashlist_xml_element_from_hashlist(new_hash_list), "  ")
+    if new_hash_list is not None:
+        _write_xml_element_to_file(file, _hashlist_xml_element_from_hashlist(new_hash_list), "  ")
 
     current_indent = current_indent[:-2]
     _write_xml_string_to_file(file, "</ascmhldirectory>\n", current_indent)
     file.flush()
     file.close()
+    os.replace(temp_file_path, chain.file_path)
 
 
 def _write_xml_element_to_file(file, xml_element, indent: str):
